@@ -35,6 +35,8 @@ def classify(src, out):
                 depth -= 1
         if mx >= 25 or src.count("\n    ") >= 25 or len(src) > 400:
             return "KF-C03-recursion-limit"
+    if out.get("cls") == "UnicodeEncodeError" and any(0xD800 <= ord(c) <= 0xDFFF for c in src):
+        return "KF-C03-lone-surrogate"
     return None
 
 
@@ -94,6 +96,6 @@ def run(rep, tier, pool, variants=("shipped",)):
                 continue
             fid = classify(src, o)
             if fid:
-                rep.known(fid, "RecursionError from deep nesting (Python recursion limit), first seen: " + short(src[:40], 50))
+                rep.known(fid, f"{o.get('cls')} (first seen: {short(src[:40], 50)})")
                 continue
             rep.violation(f"C03 {o.get('kind')} {o.get('cls')}: {short(o.get('msg'), 60)} on {short(src, 80)}", {"property": "C03", "input": src, "mode": mode, "observed": o, "variant": variant})
